@@ -139,7 +139,11 @@ class ExecMixin:
                             cv = self.val(ins['callee'], fr, st) if 'callee' in ins else self.val(ins['recv'], fr, st)
                         except Unsupported:
                             cv = None
-                        self.run_ghost_event(fr, st, 'before call %s#%d' % (self.shortfn(sg[1]), self.site_ord(fr.fn, bidx, i, sg)), {'callee': (cv, ins.get('sig'))} if cv is not None else None)
+                        ex0_ = {'callee': (cv, ins.get('sig'))} if cv is not None else {}
+                        for ai_, ao_ in enumerate(ins['args']):
+                            try: ex0_['arg%d' % ai_] = (self.val(ao_, fr, st), ao_['type'])
+                            except Unsupported: pass
+                        self.run_ghost_event(fr, st, 'before call %s#%d' % (self.shortfn(sg[1]), self.site_ord(fr.fn, bidx, i, sg)), ex0_ or None)
                     self.do_call(fr, st, ins, site, cont, spawn=(op == 'Go'))
                     return
             elif op == 'Select':
@@ -460,8 +464,12 @@ class ExecMixin:
 
     # ------------------------------------------------------------------ ghost code
     def ghost_events(self, fr):
-        c = self.contract_for(fr.fn)
-        return c.ghost if c is not None and c.ghost else None
+        f = fr
+        while f is not None:
+            c = self.contract_for(f.fn)
+            if c is not None and c.ghost: return c.ghost
+            f = f.parent
+        return None
 
     def store_field(self, fn, ins):
         a = ins['addr']
@@ -482,12 +490,20 @@ class ExecMixin:
         return self._ordcache[key].index((bidx, i)) + 1
 
     def run_ghost_event(self, fr, st, event, extra=None):
-        c = self.contract_for(fr.fn)
-        if c is None: return
-        for ev, stmts, txt in c.ghost:
-            if ev == event:
-                env = self.mkenv(fr, st, extra)
-                self.run_ghost(stmts, env, fr, st, txt)
+        """ghost statements attached to `event` in the contract of the executing function, and (for instructions of
+        helpers inlined into it) in the contracts of the enclosing frames"""
+        f = fr
+        origin = self.shortfn(fr.fn.name)
+        while f is not None:
+            c = self.contract_for(f.fn)
+            if c is not None:
+                want = event if f is fr else origin + '/' + event   # events of inlined helpers are qualified by the helper's name
+                for ev, stmts, txt in c.ghost:
+                    if ev == want:
+                        self.fired_events.add((c.name, ev))
+                        env = self.mkenv(f, st, extra)
+                        self.run_ghost(stmts, env, f, st, txt)
+            f = f.parent
 
     def is_ghost_key(self, key):
         if key.startswith('ghost:'): return True
@@ -508,6 +524,9 @@ class ExecMixin:
                 if isinstance(v, SliceV): v = v.arr
                 if z3.is_expr(v) and v.sort() != srt:
                     if srt == R and v.sort() == I: v = z3.ToReal(v)
+                if z3.is_expr(v) and not (z3.is_const(v) or z3.is_int_value(v)) and 'If(' in str(v):
+                    # keep stored values pattern-friendly (an ite inside an array term makes every pattern over that array invalid)
+                    fv_ = z3.FreshConst(srt, 'gv'); st.assume(fv_ == v); v = fv_
                 st.wr(key, idx, v, srt)
             elif k == 'forall':
                 _, vn, tn, lhs, rhs = s
@@ -528,7 +547,7 @@ class ExecMixin:
                 st.heap[key] = newarr
                 st.writes.append((key, None))
             elif k == 'assert':
-                self.oblige(st, fr, 'ghost.assert', '', self.ev_bool(s[1], env), None, text=s[2])
+                self.oblige(st, fr, 'ghost.assert', re.sub(r'\s+', '_', txt.partition(':')[0].strip()) if txt else '', self.ev_bool(s[1], env), None, text=s[2])
                 st.assume(self.ev_bool(s[1], env))
             elif k == 'assume':
                 self.assumptions.add('%s: ghost assume %s' % (self.cur, s[2]))
@@ -629,6 +648,11 @@ class ExecMixin:
         # first arrival: cut. havoc what the loop may modify, assume the invariant.
         mods = self.loop_mods(fn, lp, spec)
         for key in mods:
+            if key == 'mem:*':
+                for k2 in list(st.sorts):
+                    if k2.startswith('mem:'): st.havoc(k2, log=False)
+                st.fresh_on_create.add('mem:*')
+                continue
             st.havoc(key, log=False)
         st.bump_alloc()
         for x in phis:
@@ -749,6 +773,24 @@ class ExecMixin:
             for full in self.p.types:
                 if self.match_type(full, tn) and self.p.desc(full).get('kind') == 'named': ks.discard(self.ghost_key(full, gf))
         for g in self.c.ghostglobals: ks.discard('ghost:' + g)
+        ks -= self.owned_keys()
+        return ks
+
+    def owned_keys(self):
+        """struct fields declared `owned ... by f g h`: written only by the listed functions (checked by the @owned scan),
+        which all run on one goroutine; not part of what callbacks or other threads may change"""
+        if getattr(self, '_owned_keys', None) is not None: return self._owned_keys
+        ks = set()
+        for props, fields, funcs, src in self.c.owned:
+            for tf in fields:
+                tn, fnm = tf.rsplit('.', 1)
+                for full in self.p.types:
+                    if self.match_type(full, tn) and self.p.desc(full).get('kind') == 'named':
+                        for f in self.p.fields(full):
+                            if f['name'] == fnm:
+                                if self.K(f['type']) == 'struct': ks |= self.struct_keys(f['type'])
+                                else: ks |= self.keys_of(self.skey(full) + '.' + fnm, f['type'])
+        self._owned_keys = ks
         return ks
 
     def keys_of(self, key, t):
@@ -855,6 +897,8 @@ class ExecMixin:
         if e == 'nothing': return set()
         if e == 'anything': return set(self.all_keys())
         if e == 'world': return set(self.world_keys())
+        if e == 'mem:*':
+            return {'mem:*'}
         if e.startswith('mem'):
             et = 'uint8'
             if ':' in e: et = self.resolve_type(e.split(':', 1)[1])
